@@ -559,7 +559,9 @@ func ruleFlagsBoundBeforeFileRead(c *Check, p *Prog, rule string) {
 	}
 	g := BuildECFG(p, ld, ownPkgOpts(configPkg, 2))
 	c.NoteGraph(g)
-	binds := g.Select(func(n *Node) bool { return strings.HasSuffix(CallName(n), "viper.Viper).BindPFlag") || strings.HasSuffix(CallName(n), "viper.Viper).BindPFlags") })
+	binds := g.Select(func(n *Node) bool {
+		return strings.HasSuffix(CallName(n), "viper.Viper).BindPFlag") || strings.HasSuffix(CallName(n), "viper.Viper).BindPFlags")
+	})
 	// the visitor runs inside VisitAll: the call of VisitAll stands for the bindings made in it
 	visits := g.Select(func(n *Node) bool { return strings.HasSuffix(CallName(n), "pflag.FlagSet).VisitAll") })
 	reads := g.Select(func(n *Node) bool {
